@@ -210,6 +210,15 @@ def run(ctx):
         for system, pm in (cfgs[:4] if flat else [(system, pm)]):
             cases.append({"n": b["n"], "weakly": b["weakly"], "base": b["base"], "queries": b["queries"], "system": system, "pmaxsat": pm,
                           "budget": rng.choice(BUDGETS), "max_runs": 60 if quick else 400})
+    # larger bases (>= 8 conditionals, several layers) for the operators that enumerate correction sets
+    bigs = [b for b in answers.gen_cases(ctx, 16 if quick else 80, (6, 6), (8, 10), [False], q_per=4, big=1.0)
+            if (b["_info"].get("layers") or 0) >= 2][:8 if quick else 40]
+    big_cfgs = [CFGS[0], CFGS[0], CFGS[1], CFGS[2], CFGS[0], CFGS[3], CFGS[0], CFGS[2]]
+    for i, b in enumerate(bigs):
+        b = {k: v for k, v in b.items() if not k.startswith("_")}
+        system, pm = big_cfgs[i % len(big_cfgs)]
+        cases.append({"n": b["n"], "weakly": b["weakly"], "base": b["base"], "queries": b["queries"][:4], "system": system, "pmaxsat": pm,
+                      "budget": rng.choice(BUDGETS), "max_runs": 40 if quick else 200})
     impls = pmap(impl_eval, cases, ctx.procs)
     for c, impl in zip(cases, impls):
         runs = impl.get("runs", [])
